@@ -245,7 +245,7 @@ def find_items(src, toks, header):
     sequence equals `header` (token-wise) starting at an item keyword."""
     want = header_tokens(header)
     # the header may start with qualifiers (pub ...) - strip them for matching
-    while want and want[0] in PREFIX_WORDS:
+    while len(want) > 1 and want[0] in PREFIX_WORDS and not (want[0] == "const" and want[1] not in ("fn", "unsafe")):
         want = want[1:]
     if not want or want[0] not in ITEM_KEYWORDS:
         raise RsxError(f"header must start with an item keyword: {header!r}")
@@ -268,7 +268,7 @@ def find_items(src, toks, header):
                 or p.kind == "str"
             if not ok:
                 continue
-        e = item_end(toks, k + n - 1 if want[-1] not in OPEN else k + n - 1)
+        e = item_end(toks, k + n)
         j, start = item_start(src, toks, k)
         out.append((start, toks[e].e, k, e))
     return out
@@ -425,6 +425,7 @@ def expand_macro(mdef, args_src):
             out = _expand_repetitions(out, name, vals)
         for k, v in sorted(binds.items(), key=lambda kv: -len(kv[0])):
             out = re.sub(r"\$" + k + r"\b", lambda _m, v=v: v, out)
+        out = re.sub(r"\$crate\b", "crate", out)
         if "$" in re.sub(r'"(?:[^"\\]|\\.)*"', "", out):
             raise RsxError(f"macro {mdef.name}: unexpanded metavariable remains (unsupported shape)")
         return out
